@@ -304,6 +304,8 @@ class ExprMixin:
             return [(SFunc('method', v, attr), st)]
         if isinstance(v, SClass):
             return [(SFunc('classattr', v.name, attr), st)]
+        if isinstance(v, SFunc) and v.how == 'builtin' and v.a[0] in ('dict', 'list', 'set'):
+            return [(SFunc('classattr', v.a[0], attr), st)]
         if isinstance(v, SFunc) and v.how == 'module':
             return [(SFunc('modfunc', v.a[0], attr), st)]
         if isinstance(v, SFunc) and v.how == 'modfunc':
@@ -389,6 +391,18 @@ class ExprMixin:
         return out
 
     def ev_slice(self, node, st):
+        sl = node.slice
+        obj = self.ev1(node.value, st)
+        lo = self.concrete_int(self.ev1(sl.lower, st)) if sl.lower is not None else None
+        if isinstance(obj, SSeq) and lo == -1 and sl.upper is None and sl.step is None:
+            # seq[-1:] : the last element as a sequence of length min(n, 1)
+            out = []
+            for side, s in self.fork(st, obj.n >= 1, 'nonempty'):
+                if side:
+                    out.append((STuple([self.wrap(obj.ety, z3.Select(obj.arr, obj.n - 1))]), s))
+                else:
+                    out.append((STuple([]), s))
+            return out
         raise Unsupported('slice expression at line %d' % node.lineno)
 
     def concrete_int(self, v):
@@ -576,6 +590,12 @@ class ExprMixin:
             return b.t == self.int2val(a.t)
         if isinstance(a, SClass) and isinstance(b, SClass):
             return z3.BoolVal(a.name == b.name)
+        if isinstance(a, (SLit, STuple)) and isinstance(b, (SLit, STuple)) and not identity:
+            if isinstance(a, SLit) != isinstance(b, SLit) or (isinstance(a, SLit) and a.kind != b.kind):
+                return z3.BoolVal(False)
+            if len(a.items) != len(b.items):
+                return z3.BoolVal(False)
+            return z3.And(*[self.equal(x, y, st) for x, y in zip(a.items, b.items)]) if a.items else z3.BoolVal(True)
         for x, y in ((a, b), (b, a)):
             if isinstance(x, SVal) and isinstance(y, SRef):
                 if identity:
@@ -661,7 +681,7 @@ class ExprMixin:
         return [(r, st2)]
 
 
-BUILTIN_NAMES = {'len', 'range', 'sum', 'min', 'max', 'int', 'float', 'isinstance', 'callable', 'getattr',
+BUILTIN_NAMES = {'hash', 'len', 'range', 'sum', 'min', 'max', 'int', 'float', 'isinstance', 'callable', 'getattr',
                  'iter', 'next', 'list', 'sorted', 'abs', 'bool', 'tuple', 'dict', 'set', 'hasattr', 'enumerate',
                  'zip', 'reversed', 'str', 'repr', 'type', 'id', 'print', 'object', 'frozenset', 'bytes'}
 EXC_NAMES = {'KeyError', 'IndexError', 'ValueError', 'TypeError', 'AttributeError', 'StopIteration', 'OSError',
